@@ -5,12 +5,12 @@ import time
 
 from . import common as C
 
-ALL_LISTS = ["P1", "P2", "P3", "P4", "P5", "P6", "P7", "P8", "P9", "P10", "P11", "P12", "P13", "F1", "F2", "F3", "F4", "F5", "F6", "F7", "F8", "F9", "F10", "F11", "F12", "V1", "V2", "V3", "V4", "V5", "V6", "V7",
+ALL_LISTS = ["P1", "P2", "P3", "P4", "P5", "P6", "P7", "P8", "P9", "P10", "P11", "P12", "P13", "P14", "P15", "F1", "F2", "F3", "F4", "F5", "F6", "F7", "F8", "F9", "F10", "F11", "F12", "V1", "V2", "V3", "V4", "V5", "V6", "V7",
              "V8", "V9", "V10", "V11", "V12", "V13", "V14", "V15", "V16", "M1", "M2", "M3", "M4"]
 TRACKED = ["P3", "P4", "P5", "P8", "P12", "F11", "F3", "F4", "F5", "F6", "F9", "V3", "V4", "V7", "V9", "V10", "V12", "V16", "M2", "M3"]
 # lists of trivial value types for the "never clobbered alive" clause of C06 (observable through the values only)
 C06_TRIVIAL = ["P1", "F1", "V1", "V2", "V5", "M1"]
-ALIGNED = ["P2", "P6", "P10", "F2", "F7", "F10", "V1", "V3", "V5", "V6", "V7", "V8", "V9", "V13", "V15", "V16", "M1", "M4"]
+ALIGNED = ["P2", "P6", "P10", "P14", "P15", "F2", "F7", "F10", "V1", "V3", "V5", "V6", "V7", "V8", "V9", "V13", "V15", "V16", "M1", "M4"]
 VARYING = ["V1", "V2", "V3", "V4", "V5", "V6", "V7", "V8", "V9", "V13", "V14", "V15", "V16", "M1", "M2", "M3", "M4"]
 TRAIT_KINDS = ["T000", "T001", "T010", "T011", "T100", "T101", "T110", "T111"]
 
@@ -178,7 +178,7 @@ def spec(prop, tier):
         return hist_runs(ALL_LISTS, tier, allocs=("AE", "NP"), mode="c10", nmax=4, cmax=3, bmax=6, depth=4) + \
             [R(l, "AE", "c10", depth=4, junk=1, fault_ops=2) for l in ("P1", "F1", "F3", "V1", "V3", "V5", "M1", "M2")]
     if prop == "C11":
-        pl = ["P1", "P3", "P4", "F1", "F3", "F4", "F5", "V1", "V3", "M2"]
+        pl = ["P1", "P3", "P4", "P14", "P15", "F1", "F3", "F4", "F5", "V1", "V3", "M2"]
         runs = [R(l, "AE", "proxy", nmax=3 if q else 4, cmax=1, bmax=4, depth=3 if q else 4, junk=1, fixed="2") for l in pl]
         # long runs of trivially assignable/swappable fields: byte extents 8, 16, 32, 64 (and 15, 33 for F5's byte spans)
         # hit the block sizes a byte-swap or memmove implementation may special-case
